@@ -1,6 +1,7 @@
 import PyxisVerif.Spec.C20
 import PyxisVerif.Lemmas.C20
 import PyxisVerif.Props.C20E2E
+import PyxisVerif.Props.C20Gap
 /-!
 # C20 – equivalent descriptions produce identical bindings
 
